@@ -774,6 +774,35 @@ func registerExternals(w *World) {
 	x["strconv.ParseUint"] = parseAtom(false)
 	x["strconv.ParseInt"] = parseAtom(true)
 	x["strconv.Atoi"] = parseAtom(true)
+	// math/bits on symbolic operands: term-level models (the library bodies index byte tables
+	// with the operand, which turns every call into 4..8 256-way selects). The models are the
+	// textbook definitions: a sum of bits, a priority chain over bit positions, a bit-by-bit
+	// permutation. math/bits itself is trusted; concrete operands still run the real function.
+	bitsModel := func(wd int, f func(tp *TermPool, x *Term, wd int) *Term, resKind types.BasicKind) externalFn {
+		return func(fr *frame, args []value) (value, bool) {
+			sy, ok := args[0].(*Sym)
+			if !ok {
+				return nil, false
+			}
+			tp := fr.in.tp
+			r := f(tp, sy.T, wd)
+			rw := kindWidth(resKind)
+			if rw > wd {
+				r = tp.ZeroExt(rw-wd, r)
+			}
+			return &Sym{K: resKind, T: r}, true
+		}
+	}
+	x["math/bits.OnesCount32"] = bitsModel(32, bitsOnesCount, types.Int)
+	x["math/bits.OnesCount64"] = bitsModel(64, bitsOnesCount, types.Int)
+	x["math/bits.Len32"] = bitsModel(32, bitsLen, types.Int)
+	x["math/bits.Len64"] = bitsModel(64, bitsLen, types.Int)
+	x["math/bits.LeadingZeros32"] = bitsModel(32, bitsLeadingZeros, types.Int)
+	x["math/bits.LeadingZeros64"] = bitsModel(64, bitsLeadingZeros, types.Int)
+	x["math/bits.TrailingZeros32"] = bitsModel(32, bitsTrailingZeros, types.Int)
+	x["math/bits.TrailingZeros64"] = bitsModel(64, bitsTrailingZeros, types.Int)
+	x["math/bits.Reverse32"] = bitsModel(32, bitsReverse, types.Uint32)
+	x["math/bits.Reverse64"] = bitsModel(64, bitsReverse, types.Uint64)
 	nat := func(name string, fn any) {
 		prev := x[name]
 		x[name] = nativeBridge(w, fn, prev)
